@@ -904,7 +904,12 @@ func (e *evidence) add(o *outcome) {
 		e.counters[k] += v
 	}
 	if len(e.samples) < 2 && r.Nontrivial {
-		e.samples = append(e.samples, map[string]any{"seed": o.seed, "plan": o.plan, "status": r.Status, "steps": r.Steps, "sim_ms": r.SimNs / 1e6, "fingerprint": fmt.Sprintf("%x", r.Fingerprint)})
+		var sample any = o.plan
+		if pb, err := json.Marshal(o.plan); err == nil && len(pb) > 20000 {
+			// plans with large values (C17, C20) would make the evidence file megabytes long
+			sample = map[string]any{"plan_json_bytes": len(pb), "plan_json_head": string(pb[:4000]), "regenerate": fmt.Sprintf("bin/check genplan:%s:%d", o.plan.Prop, o.seed)}
+		}
+		e.samples = append(e.samples, map[string]any{"seed": o.seed, "plan": sample, "status": r.Status, "steps": r.Steps, "sim_ms": r.SimNs / 1e6, "fingerprint": fmt.Sprintf("%x", r.Fingerprint)})
 	}
 }
 
